@@ -58,7 +58,12 @@ Stretch(q, c, ws, cs, lo, hi) ==
     /\ lo \in 1..(Len(q) + 1) /\ hi \in 0..Len(q) /\ hi >= lo - 1
     /\ RecoveryOK(RunSeq(lo, hi), Len(q), c, ws, cs)
 Recoverable(D, q, c, ws, cs) ==
-    \E lo \in 1..(Len(q) + 1), hi \in 0..Len(q) : Stretch(q, c, ws, cs, lo, hi) /\ D = SubSeq(q, lo, hi)
+    IF D = <<>> THEN RecoveryOK(<<>>, Len(q), c, ws, cs)
+    ELSE \E lo \in 1..Len(q) :
+           /\ q[lo] = D[1]
+           /\ LET hi == lo + Len(D) - 1 IN
+                /\ hi <= Len(q) /\ D = SubSeq(q, lo, hi)
+                /\ RecoveryOK(RunSeq(lo, hi), Len(q), c, ws, cs)
 
 Init ==
   /\ lines = {} /\ path = [i \in 1..MaxLines |-> "none"]
@@ -237,6 +242,7 @@ LossNoReadAhead == \A r \in lost : r.cat \in {"notput", "unsynced"}
 NeverLostNotPut    == \A r \in lost : r.cat # "notput"
 NeverLostUnsynced  == \A r \in lost : r.cat # "unsynced"
 NeverLostReadAhead == \A r \in lost : r.cat # "readahead"
+NeverAllLossKinds  == ~(\A k \in {"notput", "unsynced", "readahead"} : \E r \in lost : r.cat = k)
 NeverRedelivered   == \A id \in lines : ndeliv[id] <= 1
 
 (* liveness: a line in the spool is eventually delivered or accounted as lost *)
